@@ -1,6 +1,7 @@
 import Litep2pVerif.Proofs.Substream.Codec
 import Litep2pVerif.Proofs.Substream.Sink
 import Litep2pVerif.Proofs.Substream.Varint
+import Litep2pVerif.Proofs.Substream.TokioCodec
 /-!
 # C04 — Framed substream messages round-trip exactly within configured limits
 
@@ -221,6 +222,79 @@ example :
     r.last = .ready ∧ r.wire = [1, 2, 3, 4] ∧ r.accepted = [[1, 2], [3, 4]] ∧
     received (.identity 2) [.data [1], .data [2, 3, 4]] = [.frame [1, 2], .frame [3, 4]] := by decide
 
+/-! ## The `tokio_util` codecs of `src/codec/` (`UnsignedVarint` over `unsigned_varint::codec::UviBytes`, `Identity`)
+
+Model: `Model/Substream/TokioCodec.lean` (buffers are byte lists; `reserve` requests are outputs). -/
+
+/-- **decode (encode x) = x.** An item within the maximum is written as its length prefix and its bytes,
+and a decoder in its initial state, given those bytes followed by anything, returns exactly the item,
+leaves the rest in the buffer and reserves nothing. -/
+theorem tokio_uvi_roundtrip (st : UviState) (item dst rest : Bytes) (hl : st.len = none) (hm : item.length ≤ st.max)
+    (h64 : item.length < 2 ^ 64) :
+    uviEncode st item dst = some (dst ++ encodeUsize item.length ++ item) ∧
+    uviDecode st (encodeUsize item.length ++ item ++ rest) = (.frame item, st, rest, none) :=
+  ⟨uviEncode_accepts st item dst hm, uviDecode_encode st item rest hl hm h64⟩
+
+example : uviEncode (UviState.new (some 3)) [7, 8, 9] [1] = some [1, 3, 7, 8, 9] ∧
+    uviDecode (UviState.new (some 3)) [3, 7, 8, 9, 0x80] = (.frame [7, 8, 9], UviState.new (some 3), [0x80], none) := by decide
+
+/-- **Progress on every prefix.** Cut the encoding of an item at any point before its end: the decoder
+answers `None` for the first part — never an error, never a frame — asking `reserve` for no more than
+the maximum, and, fed the remainder, returns exactly the item and is back in its initial state with an
+empty buffer. -/
+theorem tokio_uvi_prefix_need_more (st : UviState) (item : Bytes) (k : Nat) (hl : st.len = none) (hm : item.length ≤ st.max)
+    (h64 : item.length < 2 ^ 64) (hk : k < (encodeUsize item.length ++ item).length) :
+    ∃ st' buf rsv, uviDecode st ((encodeUsize item.length ++ item).take k) = (.needMore, st', buf, rsv) ∧
+      (∀ r, rsv = some r → r ≤ st.max) ∧
+      uviDecode st' (buf ++ (encodeUsize item.length ++ item).drop k) = (.frame item, st, [], none) :=
+  uviDecode_prefix st item k hl hm h64 hk
+
+example : uviDecode (UviState.new (some 300)) [0x82] = (.needMore, UviState.new (some 300), [0x82], none) ∧
+    uviDecode (UviState.new (some 300)) [0x82, 0x01, 5] = (.needMore, { max := 300, len := some 130 }, [5], some 129) := by decide
+
+/-- **Maximum-size rule.** The encoder refuses an item above the maximum (nothing is written); the
+decoder answers an announced length above the maximum with an error as soon as the prefix is complete,
+whatever follows, and reserves nothing for it. -/
+theorem tokio_uvi_max_rule (st : UviState) (item dst : Bytes) (n : Nat) (rest : Bytes) (hl : st.len = none)
+    (hn : n < 2 ^ 64) (hbig : st.max < n) (hitem : st.max < item.length) :
+    uviEncode st item dst = none ∧
+    uviDecode st (encodeUsize n ++ rest) = (.err .permissionDenied, st, rest, none) :=
+  ⟨uviEncode_refuses st item dst hitem, uviDecode_oversize st n rest hl hn hbig⟩
+
+example : uviEncode (UviState.new (some 2)) [1, 2, 3] [] = none ∧
+    (uviDecode (UviState.new (some 2)) [3, 1, 2, 3]).1 = .err .permissionDenied ∧
+    (uviDecode (UviState.new none) [0x81, 0x80, 0x80, 0x40]).1 = .err .permissionDenied ∧
+    (uviDecode (UviState.new none) [0xff, 0xff, 0xff, 0x3f]).2.2.2 = some (UVI_DEFAULT_MAX - 1) := by decide
+
+/-- **No allocation beyond the declared maximum.** In every state the decoder can be in (any bytes, any
+chunking, also after errors), one `decode` call asks `reserve` for at most `max` bytes, a returned frame
+has at most `max` bytes, and the next state is again such a state. (`UnsignedVarint::new(None)` declares
+`UviBytes`' default of 128 MiB.) -/
+theorem tokio_uvi_alloc_bound (st : UviState) (src : Bytes) (h : UviInv st) :
+    UviInv (uviDecode st src).2.1 ∧ (uviDecode st src).2.1.max = st.max ∧
+    (∀ r, (uviDecode st src).2.2.2 = some r → r ≤ st.max) ∧
+    (∀ f, (uviDecode st src).1 = .frame f → f.length ≤ st.max) :=
+  uviDecode_spec st src h
+
+example : UviInv (UviState.new (some 5)) ∧ UviInv (UviState.new none) ∧ (UviState.new none).max = 128 * 1024 * 1024 :=
+  ⟨uviInv_new _, uviInv_new _, rfl⟩
+
+/-- **`Identity(n)`**, `n ≥ 1`: a whole frame round-trips (the rest stays buffered); fewer than `n`
+buffered bytes are `None` with the buffer untouched; an item of any other length is refused by the
+encoder; a returned frame has exactly `n` bytes. -/
+theorem tokio_identity_roundtrip (n : Nat) (item rest dst src : Bytes) (hn : 0 < n) (hl : item.length = n) :
+    (idEncode n item dst = some (dst ++ item) ∧ idDecode n (item ++ rest) = (.frame item, rest)) ∧
+    (src.length < n → idDecode n src = (.needMore, src)) ∧
+    (∀ other, other.length ≠ n → idEncode n other dst = none) ∧
+    (∀ f, (idDecode n src).1 = .frame f → f.length = n) :=
+  ⟨idDecode_encode n item rest dst hn hl, idDecode_short n src, fun o h => idEncode_refuses n o dst h,
+    fun f h => idDecode_frame_len n src f h⟩
+
+/-- Non-vacuity, and the *pre-fix* witness: the original encoder accepted the 1-byte item (`len ≤ n`);
+the decoder then glues it to the next frame — `decode (encode x) ≠ x`. -/
+example : idEncode 3 [1, 2, 3] [9] = some [9, 1, 2, 3] ∧ idEncode 3 [1] [] = none ∧
+    idDecode 3 [1, 2] = (.needMore, [1, 2]) ∧ idDecode 3 ([1] ++ [4, 5, 6]) = (.frame [1, 4, 5], [6]) := by decide
+
 #print axioms no_oob
 #print axioms alloc_bound
 #print axioms oversize_refused
@@ -232,5 +306,10 @@ example :
 #print axioms oversize_error
 #print axioms malformed_len_error
 #print axioms flush_delivers
+#print axioms tokio_uvi_roundtrip
+#print axioms tokio_uvi_prefix_need_more
+#print axioms tokio_uvi_max_rule
+#print axioms tokio_uvi_alloc_bound
+#print axioms tokio_identity_roundtrip
 
 end Litep2pVerif.Props.C04
